@@ -14,6 +14,11 @@
 //	sw2    flow rules of `sw2` switch between lists that never reject: every request must pass;
 //	fixedB `fixedB` has one rejecting flow rule loaded once; churn on other resources must never let a request pass;
 //	fixedP `fixedP` has no rule in any module: every request must pass, whatever is churned elsewhere.
+//	att    three goroutines pass ONE read-only map through WithAttachments(shared) + WithAttachment(k, v): the API must
+//	       not write into the caller's map (race detector; the map must be unchanged after the run);
+//	hsu    a hotspot Concurrency rule is fed unhashable arguments (slice / map / struct with a slice: the parameter cache
+//	       panics, the slot chain recovers) interleaved with ordinary requests on the same resource: these must keep
+//	       finishing (30 s watchdog) — a cache mutex left locked by the panic is a deadlock;
 //	ft-*   four goroutines touch a fresh resource name at the same moment (one of them also through
 //	       stat.GetOrCreateResourceNode, like a rule loader): afterwards stat.GetResourceNode(name) must account for
 //	       every passed request (concurrent first users share one node — no lost insert).
@@ -49,24 +54,27 @@ import (
 )
 
 type result struct {
-	Seconds        float64          `json:"seconds"`
-	Seed           int64            `json:"seed"`
-	Requests       map[string]int64 `json:"requests"`
-	Outcomes       map[string]int64 `json:"outcomes"`
-	Churn          map[string]int64 `json:"churn"`
-	Reads          int64            `json:"reads"`
-	OracleChecked  int64            `json:"oracleChecked"`
-	OracleBad      []string         `json:"oracleBad"`
-	OracleBadCount int64            `json:"oracleBadCount"`
-	Panics         []string         `json:"panics"`
-	PanicCount     int64            `json:"panicCount"`
-	InternalPanics int64            `json:"internalPanics"`
-	InternalEntry  int64            `json:"internalEntry"`
-	InternalFirst  []string         `json:"internalFirst"`
-	Deadlock       bool             `json:"deadlock"`
-	Stuck          string           `json:"stuck,omitempty"`
-	Switches       int64            `json:"switches"`
-	Yields         int64            `json:"yields"`
+	Seconds          float64          `json:"seconds"`
+	Seed             int64            `json:"seed"`
+	Requests         map[string]int64 `json:"requests"`
+	Outcomes         map[string]int64 `json:"outcomes"`
+	Churn            map[string]int64 `json:"churn"`
+	Reads            int64            `json:"reads"`
+	OracleChecked    int64            `json:"oracleChecked"`
+	OracleBad        []string         `json:"oracleBad"`
+	OracleBadCount   int64            `json:"oracleBadCount"`
+	Panics           []string         `json:"panics"`
+	PanicCount       int64            `json:"panicCount"`
+	InternalPanics   int64            `json:"internalPanics"`
+	InternalEntry    int64            `json:"internalEntry"`
+	InternalFirst    []string         `json:"internalFirst"`
+	Deadlock         bool             `json:"deadlock"`
+	Stuck            string           `json:"stuck,omitempty"`
+	Switches         int64            `json:"switches"`
+	UnhashablePanics int64            `json:"unhashablePanics"`
+	SharedAttReqs    int64            `json:"sharedAttachmentRequests"`
+	HsuOrdinary      int64            `json:"hsuOrdinaryRequests"`
+	Yields           int64            `json:"yields"`
 }
 
 var (
@@ -108,6 +116,12 @@ func (countingLogger) WarnEnabled() bool { return true }
 func (countingLogger) Error(err error, msg string, kv ...interface{}) {
 	fmt.Fprint(io.Discard, kv...)
 	if strings.Contains(msg, "panic") {
+		if err != nil && (strings.Contains(err.Error(), "unhashable") || strings.Contains(err.Error(), "hash of")) {
+			// provoked on purpose by the `unhashable` goroutine: an unhashable hotspot argument panics in the parameter
+			// cache and is recovered by the slot chain (by design); counted apart
+			atomic.AddInt64(&res.UnhashablePanics, 1)
+			return
+		}
 		mu.Lock()
 		res.InternalPanics++
 		entrySide := strings.Contains(msg, "SlotChain.Entry")
@@ -500,6 +514,54 @@ func main() {
 		})
 	}
 
+	// ---- one read-only attachment map shared by many goroutines --------------------------------------------------------
+	sharedAtt := map[interface{}]interface{}{"tenant": "t1", "zone": 7}
+	for i := 0; i < 3; i++ {
+		i := i
+		spawn(fmt.Sprintf("sharedatt%d", i), func(r *rand.Rand) {
+			name := pick(r, churnRes)
+			e, b := sentinel.Entry(name, sentinel.WithTrafficType(base.Outbound), sentinel.WithAttachments(sharedAtt),
+				sentinel.WithAttachment(fmt.Sprintf("req-%d", i), r.Intn(100)))
+			atomic.AddInt64(&res.SharedAttReqs, 1)
+			if b == nil {
+				maybeYield(r)
+				e.Exit()
+			}
+		})
+	}
+
+	// ---- unhashable hotspot arguments, then ordinary traffic on the same resource (deadlock watchdog) ---------------
+	hsuRule := func() []*hotspot.Rule {
+		return []*hotspot.Rule{{Resource: "hsu", MetricType: hotspot.Concurrency, ParamIndex: 0, Threshold: 1000000, ParamsMaxCapacity: 8}}
+	}
+	hotspot.LoadRulesOfResource("hsu", hsuRule())
+	for i := 0; i < 2; i++ {
+		i := i
+		spawn(fmt.Sprintf("unhashable%d", i), func(r *rand.Rand) {
+			if r.Intn(20) == 0 {
+				hotspot.LoadRulesOfResource("hsu", hsuRule()) // the hotspot churner's global loads drop it now and then
+			}
+			var arg interface{} = r.Intn(4)
+			if i == 0 && r.Intn(3) == 0 {
+				switch r.Intn(3) {
+				case 0:
+					arg = []int{1, 2}
+				case 1:
+					arg = map[string]int{"a": 1}
+				default:
+					arg = struct{ xs []int }{[]int{3}}
+				}
+			} else {
+				atomic.AddInt64(&res.HsuOrdinary, 1)
+			}
+			e, b := sentinel.Entry("hsu", sentinel.WithTrafficType(base.Outbound), sentinel.WithArgs(arg))
+			if b == nil {
+				maybeYield(r)
+				e.Exit()
+			}
+		})
+	}
+
 	// ---- first touch: concurrent first users of a fresh resource name must share one statistics node ----------------
 	ftRound := 0
 	spawn("firsttouch", func(r *rand.Rand) {
@@ -559,6 +621,9 @@ func main() {
 		buf := make([]byte, 1<<16)
 		n := runtime.Stack(buf, true)
 		res.Stuck = string(buf[:n])
+	}
+	if len(sharedAtt) != 2 || sharedAtt["tenant"] != "t1" || sharedAtt["zone"] != 7 {
+		bad("the attachment map shared read-only by the callers was modified by the API: %v", sharedAtt)
 	}
 	res.Seconds = time.Since(t0).Seconds()
 	res.Yields = atomic.LoadInt64(&yieldsCnt)
